@@ -157,50 +157,51 @@ Proof.
     + exact (IH Hnd' Hin).
 Qed.
 
-Lemma ens_count_pos : forall (cs : list (N * cstate)) (id : N),
-  aget cs id = Some Enqueued_not_signalled -> 0 < count is_ens cs.
+Lemma owing_count_pos : forall (cs : list (N * cstate)) (id : N) (st : cstate),
+  aget cs id = Some st -> owes st = true -> 0 < count is_owing cs.
 Proof.
-  intros cs id. induction cs as [|[k y] r IH]; simpl; intros H; [discriminate|].
+  intros cs id st. induction cs as [|[k y] r IH]; simpl; intros H Ho; [discriminate|].
   destruct (N.eqb_spec k id) as [E|NE].
-  - injection H as H. subst y. unfold is_ens. simpl. lia.
-  - specialize (IH H). lia.
+  - injection H as H. subst y. unfold is_owing at 1. simpl. rewrite Ho. lia.
+  - specialize (IH H Ho). lia.
 Qed.
 
-Lemma ens_count_zero : forall (cs : list (N * cstate)),
+Lemma owing_count_zero : forall (cs : list (N * cstate)),
   NoDup (map fst cs) ->
-  (forall id, aget cs id <> Some Enqueued_not_signalled) -> count is_ens cs = 0.
+  (forall id st, aget cs id = Some st -> owes st = false) -> count is_owing cs = 0.
 Proof.
   intros cs Hnd Hno.
-  destruct (count is_ens cs) eqn:Ec; [reflexivity|exfalso].
-  assert (Hex : exists p, In p cs /\ is_ens p = true).
+  destruct (count is_owing cs) eqn:Ec; [reflexivity|exfalso].
+  assert (Hex : exists p, In p cs /\ is_owing p = true).
   { clear Hnd Hno. revert n Ec. induction cs as [|q r IH]; simpl; intros n Ec; [discriminate|].
-    destruct (is_ens q) eqn:Eq.
+    destruct (is_owing q) eqn:Eq.
     - exists q. split; [left; reflexivity|exact Eq].
     - simpl in Ec. destruct (IH n Ec) as [p [Hin Hp]]. exists p. split; [right; exact Hin|exact Hp]. }
-  destruct Hex as [[k y] [Hin Hp]]. unfold is_ens in Hp. simpl in Hp.
-  destruct y; try discriminate.
-  apply (Hno k). apply in_aget_nodup; assumption.
+  destruct Hex as [[k y] [Hin Hp]]. unfold is_owing in Hp. simpl in Hp.
+  pose proof (Hno k y (in_aget_nodup _ _ _ _ Hnd Hin)) as Hf. congruence.
 Qed.
 
 (** * The inductive invariant *)
 
-Record inv (c m : N) (s : rstate) : Prop := mkInv {
+Record inv (c m r : N) (s : rstate) : Prop := mkInv {
   i_cap : cap s = c;
   i_maxw : maxw s = m;
+  i_rcap : rcap s = r;
   i_place : forall id, places s id = known (callers s) id;
   i_effect : forall id, occ id (effects s) =
-     count (is_ok_result_of id) (chan s) + delivering_to (loop s) id + done_at (callers s) id;
+     count (is_ok_result_of id) (chan s) + delivering_to (loop s) id + answered_at (callers s) id;
   i_replied : forall id, occ id (replied s) = done_at (callers s) id;
-  i_own : forall id r o, aget (callers s) id = Some (CDone r o) -> r = id /\ o = Ok;
+  i_own : forall id st r' o, aget (callers s) id = Some st -> answer_of st = Some (r', o) ->
+          r' = id /\ o = Ok /\ (owes st = true -> (1 <= rcap s)%N);
   i_delok : forall id o, loop s = Delivering id o -> o = Ok;
   i_acct : N.to_nat (inflight s) = length (workers s) + count is_result (chan s);
   i_max : (inflight s <= maxw s)%N;
-  i_backlog : length (queue s) <= count is_token (chan s) + count is_ens (callers s) + busy (loop s)
+  i_backlog : length (queue s) <= count is_token (chan s) + count is_owing (callers s) + busy (loop s)
               \/ N.to_nat (maxw s) <= N.to_nat (inflight s) + busy (loop s);
   i_chan : length (chan s) <= N.to_nat (cap s);
   i_conserve : length (queue s) + length (workers s) + count is_result (chan s)
-               + delivering (loop s) + count is_done (callers s) = length (callers s);
-  i_tok : count is_token (chan s) + count is_ens (callers s) <= length (callers s);
+               + delivering (loop s) + count is_answered (callers s) = length (callers s);
+  i_tok : count is_token (chan s) + count is_owing (callers s) <= length (callers s);
   i_nodup : NoDup (map fst (callers s))
 }.
 
@@ -213,90 +214,145 @@ Ltac eqcase a b :=
     assert (H2 : (b =? a)%N = false) by (apply N.eqb_neq; congruence);
     rewrite ?H1, ?H2 in * ].
 
-Lemma inv_init : forall c m, inv c m (rinit c m).
+Ltac open_inv I :=
+  destruct I as [i_cap0 i_maxw0 i_rcap0 i_place0 i_effect0 i_replied0 i_own0 i_delok0 i_acct0
+                 i_max0 i_backlog0 i_chan0 i_conserve0 i_tok0 i_nodup0].
+Ltac open_state s :=
+  destruct s as [cap maxw rcap queue inflight chan callers loop workers replied effects].
+
+Lemma inv_init : forall c m r, inv c m r (rinit c m r).
 Proof.
-  intros c m. constructor; simpl; intros; try reflexivity; try lia; try discriminate.
+  intros c m r. constructor; simpl; intros; try reflexivity; try lia; try discriminate.
   constructor.
 Qed.
 
-Lemma inv_enqueue : forall c m s id s',
-  inv c m s -> rstep s (Enqueue id) = Some s' -> inv c m s'.
+Lemma inv_enqueue : forall c m r s id s',
+  inv c m r s -> rstep s (Enqueue id) = Some s' -> inv c m r s'.
 Proof.
-  intros c m s id s' I H. destruct I as [i_cap0 i_maxw0 i_place0 i_effect0 i_replied0 i_own0 i_delok0 i_acct0 i_max0 i_backlog0 i_chan0 i_conserve0 i_tok0 i_nodup0].
-  destruct s as [cap maxw queue inflight chan callers loop workers replied effects]; simpl in *.
+  intros c m r s id s' I H. open_inv I. open_state s; simpl in *.
   destruct (aget callers id) eqn:Eg; [discriminate|]. injection H as <-.
-  constructor; simpl; try assumption.
-  - intros id'. specialize (i_place0 id'). unfold places, known, occ, done_at in *; simpl in *.
-    rewrite !count_snoc. eqcase id id'.
-    + rewrite Eg in *. lia.
-    + lia.
-  - intros id'. specialize (i_effect0 id'). unfold done_at in *; simpl.
-    eqcase id id'; [rewrite Eg in *|]. lia. lia.
-  - intros id'. specialize (i_replied0 id'). unfold done_at in *; simpl.
-    eqcase id id'; [rewrite Eg in *|]; simpl in *; lia.
-  - intros id' r o. eqcase id id'; [discriminate|]. apply i_own0.
-  - rewrite app_length. simpl. lia.
-  - rewrite app_length. simpl. lia.
-  - lia.
-  - constructor; [apply aget_none_notin; exact Eg|assumption].
+  constructor; simpl;
+  [> assumption | assumption | assumption
+   | intros id'; specialize (i_place0 id'); unfold places, known, occ, answered_at in *; simpl in *;
+     rewrite !count_snoc; eqcase id id'; [rewrite Eg in *|]; simpl in *; lia
+   | intros id'; specialize (i_effect0 id'); unfold answered_at in *; simpl;
+     eqcase id id'; [rewrite Eg in *|]; simpl in *; lia
+   | intros id'; specialize (i_replied0 id'); unfold done_at in *; simpl;
+     eqcase id id'; [rewrite Eg in *|]; simpl in *; lia
+   | intros id' st r' o; eqcase id id';
+     [intros Hst; injection Hst as <-; discriminate | apply i_own0]
+   | assumption | assumption | assumption
+   | rewrite app_length; simpl; lia
+   | assumption
+   | rewrite app_length; simpl; lia
+   | lia
+   | constructor; [apply aget_none_notin; exact Eg|assumption] ].
 Qed.
 
-Lemma inv_sendtoken : forall c m s id s',
-  inv c m s -> rstep s (SendToken id) = Some s' -> inv c m s'.
+(** Effect of changing one caller's state on the per-caller observations. *)
+Lemma aset_obs : forall (cs : list (N * cstate)) (id : N) (x v : cstate),
+  aget cs id = Some x ->
+  (forall id', id <> id' -> aget (aset cs id v) id' = aget cs id') /\
+  aget (aset cs id v) id = Some v /\
+  count is_owing (aset cs id v) + (if owes x then 1 else 0) =
+    count is_owing cs + (if owes v then 1 else 0) /\
+  count is_answered (aset cs id v) + (if is_answered (id, x) then 1 else 0) =
+    count is_answered cs + (if is_answered (id, v) then 1 else 0) /\
+  length (aset cs id v) = length cs /\
+  map fst (aset cs id v) = map fst cs.
 Proof.
-  intros c m s id s' I H. destruct I as [i_cap0 i_maxw0 i_place0 i_effect0 i_replied0 i_own0 i_delok0 i_acct0 i_max0 i_backlog0 i_chan0 i_conserve0 i_tok0 i_nodup0].
-  destruct s as [cap maxw queue inflight chan callers loop workers replied effects]; simpl in *.
-  destruct (aget callers id) as [[| |r o]|] eqn:Eg; try discriminate.
+  intros cs id x v Eg. repeat split.
+  - intros id' Hne. apply aget_aset_other. exact Hne.
+  - apply aget_aset_same.
+  - exact (aset_count _ is_owing cs id x v Eg).
+  - exact (aset_count _ is_answered cs id x v Eg).
+  - exact (aset_length _ cs id x v Eg).
+  - exact (aset_keys _ cs id x v Eg).
+Qed.
+
+(** A caller changes state from [x] to [v]; everything else but the fields
+    given explicitly stays.  [da]: change of "answered", [dd]: of "done". *)
+Ltac caller_obs callers id Eg v :=
+  let Hobs := fresh "Hobs" in
+  pose proof (aset_obs callers id _ v Eg) as Hobs;
+  destruct Hobs as [Hoth [Hsame [Hown [Hans [Hlen Hkeys]]]]];
+  simpl in Hown, Hans.
+
+Lemma inv_sendtoken : forall c m r s id s',
+  inv c m r s -> rstep s (SendToken id) = Some s' -> inv c m r s'.
+Proof.
+  intros c m r s id s' I H. open_inv I. open_state s; simpl in *.
   unfold chan_full in H; simpl in H.
-  destruct (N.leb_spec cap (N.of_nat (length chan))) as [Hfull|Hroom]; [discriminate|].
+  destruct (aget callers id) as [[| |r0 o0|r0 o0]|] eqn:Eg; try discriminate;
+  (destruct (N.leb_spec cap (N.of_nat (length chan))) as [Hfull|Hroom]; [discriminate|]);
   injection H as <-.
-  pose proof (aset_count _ is_ens callers id _ Waiting Eg) as Hens.
-  pose proof (aset_count _ is_done callers id _ Waiting Eg) as Hdone.
-  pose proof (aset_length _ callers id _ Waiting Eg) as Hlen.
-  pose proof (aset_keys _ callers id _ Waiting Eg) as Hkeys.
-  simpl in Hens, Hdone.
-  constructor; simpl; try assumption.
-  - intros id'. specialize (i_place0 id'). unfold places, known, occ, done_at in *; simpl in *.
-    rewrite count_snoc. simpl. eqcase id id'.
-    + rewrite aget_aset_same. rewrite Eg in *. lia.
-    + rewrite aget_aset_other by assumption. lia.
-  - intros id'. specialize (i_effect0 id'). unfold done_at in *; simpl.
-    rewrite count_snoc. simpl. eqcase id id'.
-    + rewrite aget_aset_same. rewrite Eg in *. lia.
-    + rewrite aget_aset_other by assumption. lia.
-  - intros id'. specialize (i_replied0 id'). unfold done_at in *; simpl.
-    eqcase id id'.
-    + rewrite aget_aset_same. rewrite Eg in *. lia.
-    + rewrite aget_aset_other by assumption. lia.
-  - intros id' r o. eqcase id id'.
-    + rewrite aget_aset_same. discriminate.
-    + rewrite aget_aset_other by assumption. apply i_own0.
-  - rewrite count_snoc. simpl. lia.
-  - rewrite count_snoc. simpl. lia.
-  - rewrite app_length. simpl. lia.
-  - rewrite count_snoc. simpl. lia.
-  - rewrite count_snoc. simpl. lia.
-  - rewrite Hkeys. assumption.
+  - (* from Enqueued_not_signalled to Waiting *)
+    caller_obs callers id Eg Waiting.
+    constructor; simpl;
+    [> assumption | assumption | assumption
+     | intros id'; specialize (i_place0 id'); unfold places, known, occ, answered_at in *; simpl in *;
+       rewrite count_snoc; simpl; eqcase id id';
+       [rewrite Hsame; rewrite Eg in *|rewrite (Hoth id' NE)]; simpl in *; lia
+     | intros id'; specialize (i_effect0 id'); unfold answered_at in *; simpl;
+       rewrite count_snoc; simpl; eqcase id id';
+       [rewrite Hsame; rewrite Eg in *|rewrite (Hoth id' NE)]; simpl in *; lia
+     | intros id'; specialize (i_replied0 id'); unfold done_at in *; simpl; eqcase id id';
+       [rewrite Hsame; rewrite Eg in *|rewrite (Hoth id' NE)]; simpl in *; lia
+     | intros id' st r' o; eqcase id id';
+       [rewrite Hsame; intros Hst; injection Hst as <-; discriminate
+       |rewrite (Hoth id' NE); apply i_own0]
+     | assumption
+     | rewrite count_snoc; simpl; lia
+     | assumption
+     | rewrite count_snoc; simpl; lia
+     | rewrite app_length; simpl; lia
+     | rewrite count_snoc; simpl; lia
+     | rewrite count_snoc; simpl; lia
+     | rewrite Hkeys; assumption ].
+  - (* from Replied_not_signalled to CDone: the buffered reply is received *)
+    caller_obs callers id Eg (CDone r0 o0).
+    constructor; simpl;
+    [> assumption | assumption | assumption
+     | intros id'; specialize (i_place0 id'); unfold places, known, occ, answered_at in *; simpl in *;
+       rewrite count_snoc; simpl; eqcase id id';
+       [rewrite Hsame; rewrite Eg in *|rewrite (Hoth id' NE)]; simpl in *; lia
+     | intros id'; specialize (i_effect0 id'); unfold answered_at in *; simpl;
+       rewrite count_snoc; simpl; eqcase id id';
+       [rewrite Hsame; rewrite Eg in *|rewrite (Hoth id' NE)]; simpl in *; lia
+     | intros id'; specialize (i_replied0 id'); unfold done_at, occ in *; simpl; eqcase id id';
+       [rewrite Hsame; rewrite Eg in *|rewrite (Hoth id' NE)]; simpl in *; lia
+     | intros id' st r' o; eqcase id id';
+       [rewrite Hsame; intros Hst; injection Hst as <-; simpl; intros Ha;
+        destruct (i_own0 id' _ r' o Eg Ha) as [Ho1 [Ho2 _]];
+        split; [exact Ho1|split; [exact Ho2|discriminate]]
+       |rewrite (Hoth id' NE); apply i_own0]
+     | assumption
+     | rewrite count_snoc; simpl; lia
+     | assumption
+     | rewrite count_snoc; simpl; lia
+     | rewrite app_length; simpl; lia
+     | rewrite count_snoc; simpl; lia
+     | rewrite count_snoc; simpl; lia
+     | rewrite Hkeys; assumption ].
 Qed.
 
-Lemma inv_looprecv : forall c m s s',
-  inv c m s -> rstep s LoopRecv = Some s' -> inv c m s'.
+Lemma inv_looprecv : forall c m r s s',
+  inv c m r s -> rstep s LoopRecv = Some s' -> inv c m r s'.
 Proof.
-  intros c m s s' I H. destruct I as [i_cap0 i_maxw0 i_place0 i_effect0 i_replied0 i_own0 i_delok0 i_acct0 i_max0 i_backlog0 i_chan0 i_conserve0 i_tok0 i_nodup0].
-  destruct s as [cap maxw queue inflight chan callers loop workers replied effects]; simpl in *.
+  intros c m r s s' I H. open_inv I. open_state s; simpl in *.
   destruct loop; try discriminate.
   destruct chan as [|[|id o] rest]; try discriminate.
   - (* token *)
     injection H as <-. simpl in *.
     constructor; simpl;
-    [> assumption | assumption
+    [> assumption | assumption | assumption
      | intros id'; specialize (i_place0 id'); unfold places in *; simpl in *; lia
      | assumption | assumption | assumption | discriminate
      | lia | lia | lia | lia | lia | lia | assumption ].
   - destruct o; injection H as <-; simpl in *; unfold dec.
     + (* final result *)
       constructor; simpl;
-      [> assumption | assumption
+      [> assumption | assumption | assumption
        | intros id'; specialize (i_place0 id'); unfold places in *; simpl in *;
          eqcase id id'; simpl in *; lia
        | intros id'; specialize (i_effect0 id'); simpl in *;
@@ -306,127 +362,146 @@ Proof.
        | lia | lia | lia | lia | lia | lia | assumption ].
     + (* aborted: back to the head of the queue *)
       constructor; simpl;
-      [> assumption | assumption
+      [> assumption | assumption | assumption
        | intros id'; specialize (i_place0 id'); unfold places, occ in *; simpl in *;
          eqcase id id'; simpl in *; lia
        | assumption | assumption | assumption | discriminate
        | lia | lia | lia | lia | lia | lia | assumption ].
 Qed.
 
-Lemma inv_deliver : forall c m s id s',
-  inv c m s -> rstep s (Deliver id) = Some s' -> inv c m s'.
+Lemma inv_deliver : forall c m r s id s',
+  inv c m r s -> rstep s (Deliver id) = Some s' -> inv c m r s'.
 Proof.
-  intros c m s id s' I H. destruct I as [i_cap0 i_maxw0 i_place0 i_effect0 i_replied0 i_own0 i_delok0 i_acct0 i_max0 i_backlog0 i_chan0 i_conserve0 i_tok0 i_nodup0].
-  destruct s as [cap maxw queue inflight chan callers loop workers replied effects]; simpl in *.
+  intros c m r s id s' I H. open_inv I. open_state s; simpl in *.
   destruct loop as [|id0 o|]; try discriminate.
   destruct (N.eqb_spec id0 id) as [E|NE]; [subst id0|discriminate].
-  destruct (aget callers id) as [[| |r o']|] eqn:Eg; try discriminate.
-  injection H as <-.
   pose proof (i_delok0 id o eq_refl) as Hok. subst o.
-  pose proof (aset_count _ is_ens callers id _ (CDone id Ok) Eg) as Hens.
-  pose proof (aset_count _ is_done callers id _ (CDone id Ok) Eg) as Hdone.
-  pose proof (aset_length _ callers id _ (CDone id Ok) Eg) as Hlen.
-  pose proof (aset_keys _ callers id _ (CDone id Ok) Eg) as Hkeys.
-  simpl in Hens, Hdone.
-  constructor; simpl; try assumption.
-  - intros id'. specialize (i_place0 id'). unfold places, known, occ, done_at in *; simpl in *.
-    eqcase id id'.
-    + rewrite aget_aset_same. rewrite Eg in *. lia.
-    + rewrite aget_aset_other by assumption. lia.
-  - intros id'. specialize (i_effect0 id'). unfold done_at in *; simpl in *.
-    eqcase id id'.
-    + rewrite aget_aset_same. rewrite Eg in *. lia.
-    + rewrite aget_aset_other by assumption. lia.
-  - intros id'. specialize (i_replied0 id'). unfold done_at, occ in *; simpl in *.
-    eqcase id id'.
-    + rewrite aget_aset_same. rewrite Eg in *. lia.
-    + rewrite aget_aset_other by assumption. lia.
-  - intros id' r o'. eqcase id id'.
-    + rewrite aget_aset_same. intros Heq. injection Heq as <- <-. split; reflexivity.
-    + rewrite aget_aset_other by assumption. apply i_own0.
-  - discriminate.
-  - simpl in *. lia.
-  - simpl in *. lia.
-  - lia.
-  - rewrite Hkeys. assumption.
+  destruct (aget callers id) as [[| |r0 o0|r0 o0]|] eqn:Eg; try discriminate.
+  - (* the caller has not sent its token yet: the reply goes into its channel *)
+    destruct (N.eqb_spec rcap 0) as [Hz|Hnz]; [discriminate|]. injection H as <-.
+    caller_obs callers id Eg (Replied_not_signalled id Ok).
+    constructor; simpl;
+    [> assumption | assumption | assumption
+     | intros id'; specialize (i_place0 id'); unfold places, known, occ, answered_at in *; simpl in *;
+       eqcase id id'; [rewrite Hsame; rewrite Eg in *|rewrite (Hoth id' NE)]; simpl in *; lia
+     | intros id'; specialize (i_effect0 id'); unfold answered_at in *; simpl in *;
+       eqcase id id'; [rewrite Hsame; rewrite Eg in *|rewrite (Hoth id' NE)]; simpl in *; lia
+     | intros id'; specialize (i_replied0 id'); unfold done_at in *; simpl in *;
+       eqcase id id'; [rewrite Hsame; rewrite Eg in *|rewrite (Hoth id' NE)]; simpl in *; lia
+     | intros id' st r' o; eqcase id id';
+       [rewrite Hsame; intros Hst; injection Hst as <-; simpl; intros Ha; injection Ha as <- <-;
+        split; [reflexivity|split; [reflexivity|intros _; lia]]
+       |rewrite (Hoth id' NE); apply i_own0]
+     | discriminate
+     | assumption | assumption
+     | simpl in *; lia
+     | assumption
+     | simpl in *; lia
+     | lia
+     | rewrite Hkeys; assumption ].
+  - (* the caller is waiting: it receives at once *)
+    injection H as <-.
+    caller_obs callers id Eg (CDone id Ok).
+    constructor; simpl;
+    [> assumption | assumption | assumption
+     | intros id'; specialize (i_place0 id'); unfold places, known, occ, answered_at in *; simpl in *;
+       eqcase id id'; [rewrite Hsame; rewrite Eg in *|rewrite (Hoth id' NE)]; simpl in *; lia
+     | intros id'; specialize (i_effect0 id'); unfold answered_at in *; simpl in *;
+       eqcase id id'; [rewrite Hsame; rewrite Eg in *|rewrite (Hoth id' NE)]; simpl in *; lia
+     | intros id'; specialize (i_replied0 id'); unfold done_at, occ in *; simpl in *;
+       eqcase id id'; [rewrite Hsame; rewrite Eg in *|rewrite (Hoth id' NE)]; simpl in *; lia
+     | intros id' st r' o; eqcase id id';
+       [rewrite Hsame; intros Hst; injection Hst as <-; simpl; intros Ha; injection Ha as <- <-;
+        split; [reflexivity|split; [reflexivity|discriminate]]
+       |rewrite (Hoth id' NE); apply i_own0]
+     | discriminate
+     | assumption | assumption
+     | simpl in *; lia
+     | assumption
+     | simpl in *; lia
+     | lia
+     | rewrite Hkeys; assumption ].
 Qed.
 
-Lemma inv_dispatch : forall c m s s',
-  inv c m s -> rstep s Dispatch = Some s' -> inv c m s'.
+Lemma inv_dispatch : forall c m r s s',
+  inv c m r s -> rstep s Dispatch = Some s' -> inv c m r s'.
 Proof.
-  intros c m s s' I H. destruct I as [i_cap0 i_maxw0 i_place0 i_effect0 i_replied0 i_own0 i_delok0 i_acct0 i_max0 i_backlog0 i_chan0 i_conserve0 i_tok0 i_nodup0].
-  destruct s as [cap maxw queue inflight chan callers loop workers replied effects]; simpl in *.
+  intros c m r s s' I H. open_inv I. open_state s; simpl in *.
   destruct loop; try discriminate.
   destruct queue as [|h t].
   - injection H as <-. constructor; simpl in *;
-    [> assumption | assumption
+    [> assumption | assumption | assumption
      | intros id'; specialize (i_place0 id'); unfold places in *; simpl in *; lia
      | assumption | assumption | assumption | discriminate
      | lia | lia | lia | lia | lia | lia | assumption ].
   - destruct (N.ltb_spec inflight maxw) as [Hlt|Hge]; injection H as <-.
     + constructor; simpl in *;
-      [> assumption | assumption
+      [> assumption | assumption | assumption
        | intros id'; specialize (i_place0 id'); unfold places, occ in *; simpl in *; lia
        | assumption | assumption | assumption | discriminate
        | lia | lia | lia | lia | lia | lia | assumption ].
     + constructor; simpl in *;
-      [> assumption | assumption
+      [> assumption | assumption | assumption
        | intros id'; specialize (i_place0 id'); unfold places in *; simpl in *; lia
        | assumption | assumption | assumption | discriminate
        | lia | lia | lia | lia | lia | lia | assumption ].
 Qed.
 
-Lemma inv_finish : forall c m s id o s',
-  inv c m s -> rstep s (WorkerFinish id o) = Some s' -> inv c m s'.
+Lemma inv_finish : forall c m r s id o s',
+  inv c m r s -> rstep s (WorkerFinish id o) = Some s' -> inv c m r s'.
 Proof.
-  intros c m s id o s' I H. destruct I as [i_cap0 i_maxw0 i_place0 i_effect0 i_replied0 i_own0 i_delok0 i_acct0 i_max0 i_backlog0 i_chan0 i_conserve0 i_tok0 i_nodup0].
-  destruct s as [cap maxw queue inflight chan callers loop workers replied effects]; simpl in *.
+  intros c m r s id o s' I H. open_inv I. open_state s; simpl in *.
   destruct (memN id workers) eqn:Em; [|discriminate].
   unfold chan_full in H; simpl in H.
   destruct (N.leb_spec cap (N.of_nat (length chan))) as [Hfull|Hroom]; [discriminate|].
   injection H as <-.
   pose proof (remove1_length workers id Em) as Hlen.
-  constructor; simpl; try assumption.
-  - intros id'. specialize (i_place0 id'). unfold places in *; simpl in *.
-    rewrite count_snoc. simpl. rewrite (remove1_occ workers id id' Em) in i_place0. lia.
-  - intros id'. specialize (i_effect0 id'). rewrite count_snoc.
-    destruct o; unfold occ in *; simpl in *; lia.
-  - rewrite count_snoc. simpl. lia.
-  - rewrite count_snoc. simpl. lia.
-  - rewrite app_length. simpl. lia.
-  - rewrite count_snoc. simpl. lia.
-  - rewrite count_snoc. simpl. lia.
+  constructor; simpl;
+  [> assumption | assumption | assumption
+   | intros id'; specialize (i_place0 id'); unfold places in *; simpl in *;
+     rewrite count_snoc; simpl; rewrite (remove1_occ workers id id' Em) in i_place0; lia
+   | intros id'; specialize (i_effect0 id'); rewrite count_snoc;
+     destruct o; unfold occ in *; simpl in *; lia
+   | assumption | assumption | assumption
+   | rewrite count_snoc; simpl; lia
+   | assumption
+   | rewrite count_snoc; simpl; lia
+   | rewrite app_length; simpl; lia
+   | rewrite count_snoc; simpl; lia
+   | rewrite count_snoc; simpl; lia
+   | assumption ].
 Qed.
 
-Lemma inv_step : forall c m s l s', inv c m s -> rstep s l = Some s' -> inv c m s'.
+Lemma inv_step : forall c m r s l s', inv c m r s -> rstep s l = Some s' -> inv c m r s'.
 Proof.
-  intros c m s l s' I H. destruct l.
-  - exact (inv_enqueue c m s id s' I H).
-  - exact (inv_sendtoken c m s id s' I H).
-  - exact (inv_looprecv c m s s' I H).
-  - exact (inv_deliver c m s id s' I H).
-  - exact (inv_dispatch c m s s' I H).
-  - exact (inv_finish c m s id o s' I H).
+  intros c m r s l s' I H. destruct l.
+  - exact (inv_enqueue c m r s id s' I H).
+  - exact (inv_sendtoken c m r s id s' I H).
+  - exact (inv_looprecv c m r s s' I H).
+  - exact (inv_deliver c m r s id s' I H).
+  - exact (inv_dispatch c m r s s' I H).
+  - exact (inv_finish c m r s id o s' I H).
 Qed.
 
 (** * Reachable states *)
 
-Definition reach (c m : N) (s : rstate) : Prop := exists ls, rrun ls (rinit c m) = Some s.
+Definition reach (c m rc : N) (s : rstate) : Prop :=
+  exists ls, rrun ls (rinit c m rc) = Some s.
 
-Lemma inv_run : forall c m ls s s', inv c m s -> rrun ls s = Some s' -> inv c m s'.
+Lemma inv_run : forall c m rc ls s s', inv c m rc s -> rrun ls s = Some s' -> inv c m rc s'.
 Proof.
-  intros c m ls. induction ls as [|l r IH]; simpl; intros s s' I H.
+  intros c m rc ls. induction ls as [|l r IH]; simpl; intros s s' I H.
   - injection H as <-. exact I.
   - destruct (rstep s l) as [s1|] eqn:E; [|discriminate].
-    exact (IH s1 s' (inv_step c m s l s1 I E) H).
+    exact (IH s1 s' (inv_step c m rc s l s1 I E) H).
 Qed.
 
-Lemma reach_inv : forall c m s, reach c m s -> inv c m s.
-Proof. intros c m s [ls H]. exact (inv_run c m ls _ s (inv_init c m) H). Qed.
+Lemma reach_inv : forall c m rc s, reach c m rc s -> inv c m rc s.
+Proof. intros c m rc s [ls H]. exact (inv_run c m rc ls _ s (inv_init c m rc) H). Qed.
 
 Ltac use_inv R :=
-  destruct (reach_inv _ _ _ R)
-    as [Hcap Hmaxw Hplace Heff Hrep Hown Hdelok Hacct Hmax Hback Hchan Hcons Htok Hnd].
+  destruct (reach_inv _ _ _ _ R)
+    as [Hcap Hmaxw Hrcap Hplace Heff Hrep Hown Hdelok Hacct Hmax Hback Hchan Hcons Htok Hnd].
 
 Lemma rrun_app : forall l1 l2 s s1 s2,
   rrun l1 s = Some s1 -> rrun l2 s1 = Some s2 -> rrun (l1 ++ l2) s = Some s2.
@@ -436,8 +511,11 @@ Proof.
   - destruct (rstep s l) as [s'|]; [|discriminate]. exact (IH l2 s' s1 s2 H1 H2).
 Qed.
 
-Lemma reach_run : forall c m s ls s', reach c m s -> rrun ls s = Some s' -> reach c m s'.
-Proof. intros c m s ls s' [l0 H0] H. exists (l0 ++ ls). exact (rrun_app l0 ls _ s s' H0 H). Qed.
+Lemma reach_run : forall c m rc s ls s',
+  reach c m rc s -> rrun ls s = Some s' -> reach c m rc s'.
+Proof.
+  intros c m rc s ls s' [l0 H0] H. exists (l0 ++ ls). exact (rrun_app l0 ls _ s s' H0 H).
+Qed.
 
 Lemma ok_le_res : forall (c : list msg) (id : N),
   count (is_ok_result_of id) c <= count (is_result_of id) c.
@@ -451,71 +529,128 @@ Proof. intros cs id. unfold known. destruct (aget cs id); lia. Qed.
 
 (** ** Replies *)
 
-Lemma reply_at_most_once_l : forall c m s, reach c m s ->
+Lemma reply_at_most_once_l : forall c m rc s, reach c m rc s ->
   NoDup (map fst (callers s)) /\
   forall id, occ id (replied s) <= 1 /\
     (occ id (replied s) = 1 <-> exists r o, aget (callers s) id = Some (CDone r o)).
 Proof.
-  intros c m s R. use_inv R. split; [assumption|].
+  intros c m rc s R. use_inv R. split; [assumption|].
   intros id. rewrite (Hrep id). unfold done_at.
-  destruct (aget (callers s) id) as [[| |r o]|]; (split; [lia|]);
+  destruct (aget (callers s) id) as [[| |r o|r o]|]; (split; [lia|]);
     (split; [intros H; try lia; eauto | intros [r' [o' H]]; try discriminate; reflexivity]).
 Qed.
 
+(** A caller's answer, once given, never changes: [CDone] stays, and a reply
+    waiting in the channel stays until it becomes the [CDone] with the same
+    content. *)
 Lemma done_stable_l : forall s l s' id r o,
-  rstep s l = Some s' -> aget (callers s) id = Some (CDone r o) ->
-  aget (callers s') id = Some (CDone r o).
+  rstep s l = Some s' ->
+  (aget (callers s) id = Some (CDone r o) -> aget (callers s') id = Some (CDone r o)) /\
+  (aget (callers s) id = Some (Replied_not_signalled r o) ->
+   aget (callers s') id = Some (Replied_not_signalled r o) \/
+   aget (callers s') id = Some (CDone r o)).
 Proof.
-  intros s l s' id r o H Hd. destruct s as [cap maxw queue inflight chan callers loop workers replied effects]; simpl in *. destruct l; simpl in H.
-  - destruct (aget callers id0) eqn:Eg; [discriminate|]. injection H as <-. simpl.
-    destruct (N.eqb_spec id0 id) as [E|NE]; [subst; congruence|exact Hd].
-  - destruct (aget callers id0) as [[| |r' o']|] eqn:Eg; try discriminate.
-    destruct (chan_full _); [discriminate|]. injection H as <-. simpl.
-    destruct (N.eq_dec id0 id) as [E|NE]; [subst; congruence|].
-    rewrite aget_aset_other by assumption. exact Hd.
-  - destruct loop; try discriminate. destruct chan as [|[|i [|]] rest]; try discriminate;
-      injection H as <-; exact Hd.
-  - destruct loop as [|i o'|]; try discriminate. destruct (i =? id0)%N; [|discriminate].
-    destruct (aget callers id0) as [[| |r' o'']|] eqn:Eg; try discriminate.
-    injection H as <-. simpl.
-    destruct (N.eq_dec id0 id) as [E|NE]; [subst; congruence|].
-    rewrite aget_aset_other by assumption. exact Hd.
-  - destruct loop; try discriminate. destruct queue; [|destruct (_ <? _)%N];
-      injection H as <-; exact Hd.
-  - destruct (memN id0 workers); [|discriminate]. destruct (chan_full _); [discriminate|].
-    injection H as <-. exact Hd.
+  intros s l s' id r o H.
+  assert (Hkeep : callers s' = callers s \/
+          exists id0 v, (id0 <> id \/ (id0 = id /\
+             (forall r1 o1, aget (callers s) id <> Some (CDone r1 o1)) /\
+             (forall r1 o1, aget (callers s) id = Some (Replied_not_signalled r1 o1) ->
+                            v = CDone r1 o1))) /\
+            (callers s' = aset (callers s) id0 v \/
+             (aget (callers s) id0 = None /\ callers s' = (id0, v) :: callers s))).
+  { destruct s as [cap maxw rcap queue inflight chan callers loop workers replied effects];
+      simpl in *. destruct l; simpl in H.
+    - destruct (aget callers id0) eqn:Eg; [discriminate|]. injection H as <-. simpl.
+      right. exists id0, Enqueued_not_signalled.
+      destruct (N.eq_dec id0 id) as [E|NE].
+      + subst id0. split; [right; split; [reflexivity|split; intros; congruence]|].
+        right. split; [assumption|reflexivity].
+      + split; [left; assumption|]. right. split; [assumption|reflexivity].
+    - destruct (aget callers id0) as [[| |r' o'|r' o']|] eqn:Eg; try discriminate;
+        (destruct (chan_full _); [discriminate|]); injection H as <-; simpl; right.
+      + exists id0, Waiting. destruct (N.eq_dec id0 id) as [E|NE].
+        * subst id0. split; [right; split; [reflexivity|split; intros; congruence]|left; reflexivity].
+        * split; [left; assumption|left; reflexivity].
+      + exists id0, (CDone r' o'). destruct (N.eq_dec id0 id) as [E|NE].
+        * subst id0. split; [|left; reflexivity]. right. split; [reflexivity|].
+          split; [intros; congruence|]. intros r1 o1 Heq. congruence.
+        * split; [left; assumption|left; reflexivity].
+    - destruct loop; try discriminate. destruct chan as [|[|i [|]] rest]; try discriminate;
+        injection H as <-; left; reflexivity.
+    - destruct loop as [|i o'|]; try discriminate. destruct (i =? id0)%N; [|discriminate].
+      destruct (aget callers id0) as [[| |r' o''|r' o'']|] eqn:Eg; try discriminate.
+      + destruct (rcap =? 0)%N; [discriminate|]. injection H as <-. simpl. right.
+        exists id0, (Replied_not_signalled i o'). destruct (N.eq_dec id0 id) as [E|NE].
+        * subst id0. split; [right; split; [reflexivity|split; intros; congruence]|left; reflexivity].
+        * split; [left; assumption|left; reflexivity].
+      + injection H as <-. simpl. right.
+        exists id0, (CDone i o'). destruct (N.eq_dec id0 id) as [E|NE].
+        * subst id0. split; [right; split; [reflexivity|split; intros; congruence]|left; reflexivity].
+        * split; [left; assumption|left; reflexivity].
+    - destruct loop; try discriminate. destruct queue; [|destruct (_ <? _)%N];
+        injection H as <-; left; reflexivity.
+    - destruct (memN id0 workers); [|discriminate]. destruct (chan_full _); [discriminate|].
+      injection H as <-. left; reflexivity. }
+  destruct Hkeep as [->|[id0 [v [Hside Hupd]]]]; [split; intros Hd; [exact Hd|left; exact Hd]|].
+  destruct Hside as [Hne|[-> [Hnd Hrn]]].
+  - assert (Hsame : aget (callers s') id = aget (callers s) id).
+    { destruct Hupd as [->|[_ ->]]; [apply aget_aset_other; exact Hne|].
+      simpl. destruct (N.eqb_spec id0 id) as [E|_]; [contradiction|reflexivity]. }
+    rewrite Hsame. split; intros Hd; [exact Hd|left; exact Hd].
+  - split; intros Hd; [exfalso; exact (Hnd r o Hd)|].
+    right. rewrite (Hrn r o Hd) in Hupd. destruct Hupd as [->|[Hn _]]; [apply aget_aset_same|congruence].
 Qed.
 
-Lemma reply_is_own_result_l : forall c m s, reach c m s ->
+Lemma reply_is_own_result_l : forall c m rc s, reach c m rc s ->
   forall id r o, In (id, CDone r o) (callers s) ->
     r = id /\ o = Ok /\ occ id (effects s) = 1 /\ occ id (replied s) = 1.
 Proof.
-  intros c m s R id r o Hin. use_inv R.
+  intros c m rc s R id r o Hin. use_inv R.
   pose proof (in_aget_nodup _ _ _ _ Hnd Hin) as Hg.
-  destruct (Hown id r o Hg) as [-> ->].
+  destruct (Hown id _ r o Hg eq_refl) as [-> [-> _]].
   specialize (Hplace id). specialize (Heff id). specialize (Hrep id).
   pose proof (ok_le_res (chan s) id) as Hle.
-  unfold places, known, done_at in *. rewrite Hg in *.
+  unfold places, known, done_at, answered_at in *. rewrite Hg in *. simpl in *.
   repeat split; lia.
 Qed.
 
-Lemma aborted_never_delivered_l : forall c m s, reach c m s ->
-  (forall id o, loop s = Delivering id o -> o = Ok) /\
-  (forall id r, ~ In (id, CDone r Aborted) (callers s)).
+(** The reply waiting in a caller's channel is its own, too; it has not been
+    received yet. *)
+Lemma pending_reply_is_own_result_l : forall c m rc s, reach c m rc s ->
+  forall id r o, In (id, Replied_not_signalled r o) (callers s) ->
+    r = id /\ o = Ok /\ occ id (effects s) = 1 /\ occ id (replied s) = 0 /\ (1 <= rc)%N.
 Proof.
-  intros c m s R. split.
+  intros c m rc s R id r o Hin.
+  use_inv R.
+  pose proof (in_aget_nodup _ _ _ _ Hnd Hin) as Hg.
+  destruct (Hown id _ r o Hg eq_refl) as [-> [-> Hrc]]. specialize (Hrc eq_refl).
+  specialize (Hplace id). specialize (Heff id). specialize (Hrep id).
+  pose proof (ok_le_res (chan s) id) as Hle.
+  unfold places, known, done_at, answered_at in *. rewrite Hg in *. simpl in *.
+  repeat split; lia.
+Qed.
+
+Lemma aborted_never_delivered_l : forall c m rc s, reach c m rc s ->
+  (forall id o, loop s = Delivering id o -> o = Ok) /\
+  (forall id r, ~ In (id, CDone r Aborted) (callers s)) /\
+  (forall id r, ~ In (id, Replied_not_signalled r Aborted) (callers s)).
+Proof.
+  intros c m rc s R. split; [|split].
   - use_inv R. assumption.
-  - intros id r Hin. destruct (reply_is_own_result_l c m s R id r Aborted Hin) as [_ [H _]].
+  - intros id r Hin. destruct (reply_is_own_result_l c m rc s R id r Aborted Hin) as [_ [H _]].
+    discriminate.
+  - intros id r Hin.
+    destruct (pending_reply_is_own_result_l c m rc s R id r Aborted Hin) as [_ [H _]].
     discriminate.
 Qed.
 
 (** ** Effects: a statement commits at most once, and never runs again afterwards *)
 
-Lemma effect_at_most_once_l : forall c m s, reach c m s -> forall id,
+Lemma effect_at_most_once_l : forall c m rc s, reach c m rc s -> forall id,
   occ id (effects s) <= 1 /\
   (occ id (effects s) = 1 -> occ id (queue s) = 0 /\ occ id (workers s) = 0).
 Proof.
-  intros c m s R id. use_inv R.
+  intros c m rc s R id. use_inv R.
   specialize (Hplace id). specialize (Heff id).
   pose proof (ok_le_res (chan s) id) as Hle. pose proof (known_le_1 (callers s) id) as Hk.
   unfold places in *. lia.
@@ -523,25 +658,25 @@ Qed.
 
 (** ** Accounting *)
 
-Lemma accounting_l : forall c m s, reach c m s ->
-  cap s = c /\ maxw s = m /\
+Lemma accounting_l : forall c m rc s, reach c m rc s ->
+  cap s = c /\ maxw s = m /\ rcap s = rc /\
   N.to_nat (inflight s) = length (workers s) + count is_result (chan s) /\
   (inflight s <= maxw s)%N /\ length (chan s) <= N.to_nat (cap s).
-Proof. intros c m s R. use_inv R. repeat split; assumption. Qed.
+Proof. intros c m rc s R. use_inv R. repeat split; assumption. Qed.
 
-Lemma one_place_l : forall c m s, reach c m s ->
+Lemma one_place_l : forall c m rc s, reach c m rc s ->
   (forall id, places s id = known (callers s) id) /\
   length (queue s) + length (workers s) + count is_result (chan s)
-    + delivering (loop s) + count is_done (callers s) = length (callers s).
-Proof. intros c m s R. use_inv R. split; assumption. Qed.
+    + delivering (loop s) + count is_answered (callers s) = length (callers s).
+Proof. intros c m rc s R. use_inv R. split; assumption. Qed.
 
 (** Readable consequences of [places = known]. *)
-Lemma one_place_cases_l : forall c m s, reach c m s -> forall id,
+Lemma one_place_cases_l : forall c m rc s, reach c m rc s -> forall id,
   (In id (queue s) \/ In id (workers s) -> aget (callers s) id <> None) /\
   (aget (callers s) id <> None -> places s id = 1) /\
   (aget (callers s) id = None -> places s id = 0).
 Proof.
-  intros c m s R id. destruct (one_place_l c m s R) as [Hp _]. specialize (Hp id).
+  intros c m rc s R id. destruct (one_place_l c m rc s R) as [Hp _]. specialize (Hp id).
   unfold known in Hp. repeat split.
   - intros Hin Hn. rewrite Hn in Hp. unfold places in Hp.
     assert (Hgt : 0 < occ id (queue s) + occ id (workers s)); [|lia].
@@ -555,50 +690,49 @@ Qed.
 
 (** ** Backlog / stranding *)
 
-Lemma backlog_l : forall c m s, reach c m s ->
-  length (queue s) <= count is_token (chan s) + count is_ens (callers s) + busy (loop s)
+Lemma backlog_l : forall c m rc s, reach c m rc s ->
+  length (queue s) <= count is_token (chan s) + count is_owing (callers s) + busy (loop s)
   \/ N.to_nat m <= N.to_nat (inflight s) + busy (loop s).
-Proof. intros c m s R. use_inv R. rewrite <- Hmaxw. assumption. Qed.
+Proof. intros c m rc s R. use_inv R. rewrite <- Hmaxw. assumption. Qed.
 
 Definition stranded_s (s : rstate) : Prop :=
   queue s <> [] /\ chan s = [] /\ workers s = [] /\ loop s = Idle /\
-  (forall id, aget (callers s) id <> Some Enqueued_not_signalled).
+  (forall id st, aget (callers s) id = Some st -> owes st = false).
 
-Lemma no_stranding_l : forall c m s, (1 <= m)%N -> reach c m s -> ~ stranded_s s.
+Lemma no_stranding_l : forall c m rc s, (1 <= m)%N -> reach c m rc s -> ~ stranded_s s.
 Proof.
-  intros c m s Hm R [Hq [Hc [Hw [Hl Hens]]]].
-  pose proof (backlog_l c m s R) as Hb. use_inv R.
-  rewrite (ens_count_zero (callers s) Hnd Hens) in Hb.
+  intros c m rc s Hm R [Hq [Hc [Hw [Hl Hens]]]].
+  pose proof (backlog_l c m rc s R) as Hb. use_inv R.
+  rewrite (owing_count_zero (callers s) Hnd Hens) in Hb.
   rewrite Hc, Hw, Hl in *. simpl in *.
   destruct (queue s); [congruence|]. simpl in *. lia.
 Qed.
 
-Lemma pending_work_l : forall c m s, (1 <= m)%N -> reach c m s -> queue s <> [] ->
-  0 < count is_token (chan s) + count is_ens (callers s) + busy (loop s)
+Lemma pending_work_l : forall c m rc s, (1 <= m)%N -> reach c m rc s -> queue s <> [] ->
+  0 < count is_token (chan s) + count is_owing (callers s) + busy (loop s)
       + length (workers s) + count is_result (chan s).
 Proof.
-  intros c m s Hm R Hq. pose proof (backlog_l c m s R) as Hb. use_inv R.
+  intros c m rc s Hm R Hq. pose proof (backlog_l c m rc s R) as Hb. use_inv R.
   destruct (queue s); [congruence|]. simpl in *. lia.
 Qed.
 
-Lemma backlog_idle_l : forall c m s, (2 <= m)%N -> reach c m s -> inflight s = 0%N ->
-  length (queue s) <= count is_token (chan s) + count is_ens (callers s) + busy (loop s).
+Lemma backlog_idle_l : forall c m rc s, (2 <= m)%N -> reach c m rc s -> inflight s = 0%N ->
+  length (queue s) <= count is_token (chan s) + count is_owing (callers s) + busy (loop s).
 Proof.
-  intros c m s Hm R Hi. pose proof (backlog_l c m s R) as Hb.
+  intros c m rc s Hm R Hi. pose proof (backlog_l c m rc s R) as Hb.
   assert (Hb1 : busy (loop s) <= 1) by (destruct (loop s); simpl; lia). lia.
 Qed.
 
 (** ** [enabled] is exactly the set of enabled non-Enqueue labels *)
 
-
 Lemma ens_ids_spec : forall cs id,
-  In id (ens_ids cs) <-> aget cs id = Some Enqueued_not_signalled.
+  In id (ens_ids cs) <-> exists st, aget cs id = Some st /\ owes st = true.
 Proof.
   intros cs id. unfold ens_ids. rewrite filter_In. split.
-  - intros [_ H]. destruct (aget cs id) as [[| |r o]|]; try discriminate. reflexivity.
-  - intros H. split.
+  - intros [_ H]. destruct (aget cs id) as [st|]; [|discriminate]. exists st. split; [reflexivity|exact H].
+  - intros [st [H Ho]]. split.
     + apply aget_some_in in H. apply (in_map fst) in H. exact H.
-    + rewrite H. reflexivity.
+    + rewrite H. exact Ho.
 Qed.
 
 Lemma enabled_sound : forall s l, In l (enabled s) -> exists s', rstep s l = Some s'.
@@ -607,14 +741,17 @@ Proof.
   apply in_app_or in H. destruct H as [H|H].
   { destruct (chan_full s) eqn:Ef; [contradiction|].
     apply in_map_iff in H. destruct H as [id [<- Hin]]. apply ens_ids_spec in Hin.
-    simpl. rewrite Hin, Ef. eauto. }
+    destruct Hin as [st [Hg Ho]]. simpl. rewrite Hg, Ef.
+    destruct st; try discriminate; eauto. }
   apply in_app_or in H. destruct H as [H|H].
   { destruct (loop s) eqn:El; try contradiction. destruct (chan s) as [|x r] eqn:Ec; [contradiction|].
     destruct H as [<-|[]]. simpl. rewrite El, Ec. destruct x as [|i [|]]; eauto. }
   apply in_app_or in H. destruct H as [H|H].
   { destruct (loop s) as [|id o|] eqn:El; try contradiction.
-    destruct (aget (callers s) id) as [[| |r o']|] eqn:Eg; try contradiction.
-    destruct H as [<-|[]]. simpl. rewrite El, N.eqb_refl, Eg. eauto. }
+    destruct (aget (callers s) id) as [[| |r o'|r o']|] eqn:Eg; try contradiction.
+    - destruct (rcap s =? 0)%N eqn:Er; [contradiction|].
+      destruct H as [<-|[]]. simpl. rewrite El, N.eqb_refl, Eg, Er. eauto.
+    - destruct H as [<-|[]]. simpl. rewrite El, N.eqb_refl, Eg. eauto. }
   apply in_app_or in H. destruct H as [H|H].
   { destruct (loop s) eqn:El; try contradiction. destruct H as [<-|[]]. simpl. rewrite El.
     destruct (queue s); [eauto|]. destruct (_ <? _)%N; eauto. }
@@ -627,15 +764,19 @@ Lemma enabled_complete : forall s l s',
   rstep s l = Some s' -> is_enqueue l = false -> In l (enabled s).
 Proof.
   intros s l s' H Hne. unfold enabled. destruct l; simpl in H; try discriminate.
-  - destruct (aget (callers s) id) as [[| |r o]|] eqn:Eg; try discriminate.
-    destruct (chan_full s); [discriminate|].
-    apply in_or_app. left. apply in_map. apply ens_ids_spec. exact Eg.
+  - destruct (aget (callers s) id) as [st|] eqn:Eg; [|discriminate].
+    assert (Ho : owes st = true /\ chan_full s = false).
+    { destruct st; try discriminate; (destruct (chan_full s); [discriminate|]); split; reflexivity. }
+    destruct Ho as [Ho Ef]. rewrite Ef.
+    apply in_or_app. left. apply in_map. apply ens_ids_spec. exists st. split; assumption.
   - apply in_or_app. right. apply in_or_app. left.
     destruct (loop s); try discriminate. destruct (chan s); [discriminate|]. left. reflexivity.
   - apply in_or_app. right. apply in_or_app. right. apply in_or_app. left.
     destruct (loop s) as [|i o|]; try discriminate.
     destruct (N.eqb_spec i id) as [E|NE]; [subst i|discriminate].
-    destruct (aget (callers s) id) as [[| |r o']|]; try discriminate. left. reflexivity.
+    destruct (aget (callers s) id) as [[| |r o'|r o']|]; try discriminate.
+    + destruct (rcap s =? 0)%N; [discriminate|]. left. reflexivity.
+    + left. reflexivity.
   - apply in_or_app. right. apply in_or_app. right. apply in_or_app. right. apply in_or_app. left.
     destruct (loop s); try discriminate. left. reflexivity.
   - apply in_or_app. right. apply in_or_app. right. apply in_or_app. right. apply in_or_app. right.
@@ -651,19 +792,20 @@ Definition quiescent_s (s : rstate) : Prop :=
   queue s = [] /\ workers s = [] /\ chan s = [] /\ loop s = Idle /\
   forall id st, In (id, st) (callers s) -> exists r o, st = CDone r o.
 
-(** The run loop is blocked handing a result to a caller that is itself
-    blocked sending its wake-up token into the full channel. *)
+(** Only with unbuffered reply channels: the run loop is blocked handing a
+    result to a caller that is itself blocked sending its wake-up token into
+    the full channel. *)
 Definition lcd_s (s : rstate) : Prop :=
-  exists id o, loop s = Delivering id o /\
+  rcap s = 0%N /\ exists id o, loop s = Delivering id o /\
     aget (callers s) id = Some Enqueued_not_signalled /\ chan_full s = true.
 
 Lemma app_nil_l2 : forall (A : Type) (a b : list A), a ++ b = [] -> a = [] /\ b = [].
 Proof. intros A a b H. apply app_eq_nil in H. exact H. Qed.
 
-Lemma deadlock_characterisation_l : forall c m s, (1 <= c)%N -> (1 <= m)%N -> reach c m s ->
-  enabled s = [] -> quiescent_s s \/ lcd_s s.
+Lemma deadlock_characterisation_l : forall c m rc s, (1 <= c)%N -> (1 <= m)%N ->
+  reach c m rc s -> enabled s = [] -> quiescent_s s \/ lcd_s s.
 Proof.
-  intros c m s Hc Hm R He. use_inv R. unfold enabled in He.
+  intros c m rc s Hc Hm R He. use_inv R. unfold enabled in He.
   apply app_nil_l2 in He. destruct He as [He1 He].
   apply app_nil_l2 in He. destruct He as [He2 He].
   apply app_nil_l2 in He. destruct He as [He3 He].
@@ -676,62 +818,91 @@ Proof.
     rewrite Ef in *.
     assert (Hw : workers s = []).
     { destruct (workers s); [reflexivity|discriminate]. }
-    assert (Hens : forall id, aget (callers s) id <> Some Enqueued_not_signalled).
-    { intros id Hg. apply ens_ids_spec in Hg. apply (in_map SendToken) in Hg.
-      rewrite He1 in Hg. contradiction. }
-    rewrite (ens_count_zero (callers s) Hnd Hens) in *. rewrite Hw in *. simpl in *.
+    assert (Hens : forall id st, aget (callers s) id = Some st -> owes st = false).
+    { intros id st Hg. destruct (owes st) eqn:Eo; [|reflexivity].
+      assert (Hin : In id (ens_ids (callers s))) by (apply ens_ids_spec; exists st; split; assumption).
+      apply (in_map SendToken) in Hin. rewrite He1 in Hin. contradiction. }
+    rewrite (owing_count_zero (callers s) Hnd Hens) in *. rewrite Hw in *. simpl in *.
     assert (Hq : queue s = []).
     { destruct (queue s); [reflexivity|]. simpl in *. lia. }
     rewrite Hq in Hcons. simpl in Hcons.
     repeat split; try assumption.
     intros id st Hin.
-    assert (Hd : is_done (id, st) = true).
-    { apply (count_all _ is_done (callers s)); [lia|exact Hin]. }
-    unfold is_done in Hd. simpl in Hd. destruct st; try discriminate. eauto.
+    assert (Hd : is_answered (id, st) = true).
+    { apply (count_all _ is_answered (callers s)); [lia|exact Hin]. }
+    pose proof (Hens id st (in_aget_nodup _ _ _ _ Hnd Hin)) as Hno.
+    unfold is_answered in Hd. simpl in Hd. destruct st; try discriminate. eauto.
   - (* the loop is blocked on the caller's reply channel *)
-    right. specialize (Hplace id). unfold places, known, done_at in Hplace.
+    right. specialize (Hplace id). unfold places, known, answered_at in Hplace.
     rewrite El in Hplace. simpl in Hplace. rewrite N.eqb_refl in Hplace.
-    destruct (aget (callers s) id) as [[| |r o']|] eqn:Eg; try discriminate; try lia.
+    destruct (aget (callers s) id) as [[| |r o'|r o']|] eqn:Eg; simpl in Hplace;
+      try discriminate; try lia.
+    destruct (N.eqb_spec (rcap s) 0) as [Hz|Hnz]; [|discriminate].
+    split; [exact Hz|].
     exists id, o. split; [exact El|]. split; [exact Eg|].
     destruct (chan_full s) eqn:Ef; [reflexivity|].
-    assert (Hg := Eg). apply ens_ids_spec in Hg. apply (in_map SendToken) in Hg.
-    rewrite He1 in Hg. contradiction.
+    assert (Hin : In id (ens_ids (callers s))).
+    { apply ens_ids_spec. exists Enqueued_not_signalled. split; [exact Eg|reflexivity]. }
+    apply (in_map SendToken) in Hin. rewrite He1 in Hin. contradiction.
 Qed.
 
-Lemma no_deadlock_partial_l : forall c m s, (1 <= c)%N -> (1 <= m)%N -> reach c m s ->
+Definition no_deadlock_s (c m rc : N) : Prop :=
+  forall s, reach c m rc s -> enabled s <> [] \/ quiescent_s s.
+
+(** With buffered reply channels there is no deadlock. *)
+Lemma no_deadlock_buffered_l : forall c m rc, (1 <= c)%N -> (1 <= m)%N -> (1 <= rc)%N ->
+  no_deadlock_s c m rc.
+Proof.
+  intros c m rc Hc Hm Hr s R. destruct (enabled s) eqn:Ee; [|left; discriminate].
+  right. destruct (deadlock_characterisation_l c m rc s Hc Hm R Ee) as [Hq|[Hz _]]; [exact Hq|].
+  use_inv R. lia.
+Qed.
+
+Lemma real_side_conditions :
+  (1 <= req_chan_capacity)%N /\ (1 <= max_txn_thread_num)%N /\ (1 <= reply_chan_capacity)%N.
+Proof. repeat split; intros H; vm_compute in H; discriminate H. Qed.
+
+Lemma no_deadlock_real_l :
+  no_deadlock_s req_chan_capacity max_txn_thread_num reply_chan_capacity.
+Proof.
+  destruct real_side_conditions as [Hc [Hm Hr]].
+  exact (no_deadlock_buffered_l _ _ _ Hc Hm Hr).
+Qed.
+
+Lemma no_deadlock_partial_l : forall c m rc s, (1 <= c)%N -> (1 <= m)%N -> reach c m rc s ->
   enabled s <> [] \/ quiescent_s s \/ lcd_s s.
 Proof.
-  intros c m s Hc Hm R. destruct (enabled s) eqn:Ee; [|left; discriminate].
-  right. exact (deadlock_characterisation_l c m s Hc Hm R Ee).
+  intros c m rc s Hc Hm R. destruct (enabled s) eqn:Ee; [|left; discriminate].
+  right. exact (deadlock_characterisation_l c m rc s Hc Hm R Ee).
 Qed.
 
-Lemma no_deadlock_below_capacity_l : forall c m s, (1 <= c)%N -> (1 <= m)%N -> reach c m s ->
-  chan_full s = false -> enabled s <> [] \/ quiescent_s s.
+Lemma no_deadlock_below_capacity_l : forall c m rc s, (1 <= c)%N -> (1 <= m)%N ->
+  reach c m rc s -> chan_full s = false -> enabled s <> [] \/ quiescent_s s.
 Proof.
-  intros c m s Hc Hm R Hf. destruct (enabled s) eqn:Ee; [|left; discriminate].
-  right. destruct (deadlock_characterisation_l c m s Hc Hm R Ee) as [Hq|[id [o [_ [_ Hfull]]]]];
-    [exact Hq|congruence].
+  intros c m rc s Hc Hm R Hf. destruct (enabled s) eqn:Ee; [|left; discriminate].
+  right. destruct (deadlock_characterisation_l c m rc s Hc Hm R Ee)
+    as [Hq|[_ [id [o [_ [_ Hfull]]]]]]; [exact Hq|congruence].
 Qed.
 
-Lemma deadlock_needs_l : forall c m s, reach c m s -> lcd_s s ->
-  N.to_nat c <= count is_token (chan s) + N.to_nat m /\
+Lemma deadlock_needs_l : forall c m rc s, reach c m rc s -> lcd_s s ->
+  rc = 0%N /\ N.to_nat c <= count is_token (chan s) + N.to_nat m /\
   count is_token (chan s) + 1 <= length (callers s).
 Proof.
-  intros c m s R [id [o [Hl [Hg Hf]]]]. use_inv R.
-  pose proof (ens_count_pos _ _ Hg) as Hpos. pose proof (tok_res_length (chan s)) as Hlen.
-  unfold chan_full in Hf. lia.
+  intros c m rc s R [Hz [id [o [Hl [Hg Hf]]]]]. use_inv R.
+  pose proof (owing_count_pos _ _ _ Hg eq_refl) as Hpos.
+  pose proof (tok_res_length (chan s)) as Hlen.
+  unfold chan_full in Hf. split; [congruence|]. lia.
 Qed.
 
-Lemma no_deadlock_few_callers_l : forall c m s, (1 <= c)%N -> (1 <= m)%N -> reach c m s ->
+Lemma no_deadlock_few_callers_l : forall c m rc s, (1 <= c)%N -> (1 <= m)%N -> reach c m rc s ->
   length (callers s) + N.to_nat m <= N.to_nat c -> enabled s <> [] \/ quiescent_s s.
 Proof.
-  intros c m s Hc Hm R Hfew. destruct (enabled s) eqn:Ee; [|left; discriminate].
-  right. destruct (deadlock_characterisation_l c m s Hc Hm R Ee) as [Hq|Hd]; [exact Hq|].
-  destruct (deadlock_needs_l c m s R Hd). lia.
+  intros c m rc s Hc Hm R Hfew. destruct (enabled s) eqn:Ee; [|left; discriminate].
+  right. destruct (deadlock_characterisation_l c m rc s Hc Hm R Ee) as [Hq|Hd]; [exact Hq|].
+  destruct (deadlock_needs_l c m rc s R Hd) as [_ [H1 H2]]. lia.
 Qed.
 
 (** ** Bounded work *)
-
 
 Lemma list_sum_snoc : forall l x, list_sum (l ++ [x]) = list_sum l + x.
 Proof. intros l x. rewrite list_sum_app. simpl. lia. Qed.
@@ -753,18 +924,26 @@ Qed.
 Lemma potential_step : forall s l s', rstep s l = Some s' -> is_enqueue l = false ->
   potential s' + 1 <= potential s + 4 * (if is_abort_finish l then 1 else 0).
 Proof.
-  intros s l s' H Hne. destruct s as [cap maxw queue inflight chan callers loop workers replied effects]; unfold potential; destruct l; simpl in *; try discriminate.
-  - destruct (aget callers id) as [[| |r o]|] eqn:Eg; try discriminate.
-    destruct (chan_full _); [discriminate|]. injection H as <-. simpl.
-    pose proof (aset_sum (fun p => caller_weight (snd p)) callers id _ Waiting Eg) as Hs.
-    rewrite sum_map_snoc. simpl in *. lia.
+  intros s l s' H Hne.
+  destruct s as [cap maxw rcap queue inflight chan callers loop workers replied effects];
+    unfold potential; destruct l; simpl in *; try discriminate.
+  - destruct (aget callers id) as [[| |r o|r o]|] eqn:Eg; try discriminate;
+      (destruct (chan_full _); [discriminate|]); injection H as <-; simpl.
+    + pose proof (aset_sum (fun p => caller_weight (snd p)) callers id _ Waiting Eg) as Hs.
+      rewrite sum_map_snoc. simpl in *. lia.
+    + pose proof (aset_sum (fun p => caller_weight (snd p)) callers id _ (CDone r o) Eg) as Hs.
+      rewrite sum_map_snoc. simpl in *. lia.
   - destruct loop; try discriminate. destruct chan as [|[|i [|]] rest]; try discriminate;
       injection H as <-; simpl; lia.
   - destruct loop as [|i o|]; try discriminate. destruct (i =? id)%N; [|discriminate].
-    destruct (aget callers id) as [[| |r o']|] eqn:Eg; try discriminate.
-    injection H as <-. simpl.
-    pose proof (aset_sum (fun p => caller_weight (snd p)) callers id _ (CDone i o) Eg) as Hs.
-    simpl in *. lia.
+    destruct (aget callers id) as [[| |r o'|r o']|] eqn:Eg; try discriminate.
+    + destruct (rcap =? 0)%N; [discriminate|]. injection H as <-. simpl.
+      pose proof (aset_sum (fun p => caller_weight (snd p)) callers id _
+                    (Replied_not_signalled i o) Eg) as Hs.
+      simpl in *. lia.
+    + injection H as <-. simpl.
+      pose proof (aset_sum (fun p => caller_weight (snd p)) callers id _ (CDone i o) Eg) as Hs.
+      simpl in *. lia.
   - destruct loop; try discriminate. destruct queue; [|destruct (_ <? _)%N];
       injection H as <-; simpl; lia.
   - destruct (memN id workers) eqn:Em; [|discriminate]. destruct (chan_full _); [discriminate|].
@@ -783,61 +962,100 @@ Proof.
     destruct (is_abort_finish l); lia.
 Qed.
 
-
 Lemma bounded_work_l : forall ls s s', rrun ls s = Some s' -> no_enqueue ls = true ->
   length ls <= potential s + 4 * count is_abort_finish ls.
 Proof. intros ls s s' H Hne. pose proof (potential_run ls s s' H Hne). lia. Qed.
 
-Lemma maximal_run_l : forall c m s ls s', (1 <= c)%N -> (1 <= m)%N -> reach c m s ->
+Lemma maximal_run_l : forall c m rc s ls s', (1 <= c)%N -> (1 <= m)%N -> reach c m rc s ->
   rrun ls s = Some s' -> enabled s' = [] ->
   quiescent_s s' \/ lcd_s s'.
 Proof.
-  intros c m s ls s' Hc Hm R H He.
-  exact (deadlock_characterisation_l c m s' Hc Hm (reach_run c m s ls s' R H) He).
+  intros c m rc s ls s' Hc Hm R H He.
+  exact (deadlock_characterisation_l c m rc s' Hc Hm (reach_run c m rc s ls s' R H) He).
 Qed.
 
-Lemma all_answered_l : forall c m s ls s', (1 <= c)%N -> (1 <= m)%N -> reach c m s ->
+(** Buffered reply channels: every maximal Enqueue-free run is short and ends
+    with every caller answered. *)
+Lemma all_answered_l : forall c m rc s ls s', (1 <= c)%N -> (1 <= m)%N -> (1 <= rc)%N ->
+  reach c m rc s -> rrun ls s = Some s' -> no_enqueue ls = true ->
+  length ls <= potential s + 4 * count is_abort_finish ls /\
+  (enabled s' = [] ->
+   forall id st, In (id, st) (callers s') -> exists r o, st = CDone r o).
+Proof.
+  intros c m rc s ls s' Hc Hm Hr R H Hne. split; [exact (bounded_work_l ls s s' H Hne)|].
+  intros He.
+  destruct (no_deadlock_buffered_l c m rc Hc Hm Hr s' (reach_run c m rc s ls s' R H))
+    as [Hen|[_ [_ [_ [_ Hall]]]]]; [congruence|exact Hall].
+Qed.
+
+Lemma all_answered_real_l : forall s ls s',
+  reach req_chan_capacity max_txn_thread_num reply_chan_capacity s ->
   rrun ls s = Some s' -> no_enqueue ls = true ->
+  length ls <= potential s + 4 * count is_abort_finish ls /\
+  (enabled s' = [] ->
+   forall id st, In (id, st) (callers s') -> exists r o, st = CDone r o).
+Proof.
+  intros s ls s'. destruct real_side_conditions as [Hc [Hm Hr]].
+  exact (all_answered_l _ _ _ s ls s' Hc Hm Hr).
+Qed.
+
+(** Any reply-channel capacity (in particular the unbuffered variant): the same
+    with the side condition that the run stops with a free channel slot. *)
+Lemma all_answered_partial_l : forall c m rc s ls s', (1 <= c)%N -> (1 <= m)%N ->
+  reach c m rc s -> rrun ls s = Some s' -> no_enqueue ls = true ->
   length ls <= potential s + 4 * count is_abort_finish ls /\
   (enabled s' = [] -> chan_full s' = false ->
    forall id st, In (id, st) (callers s') -> exists r o, st = CDone r o).
 Proof.
-  intros c m s ls s' Hc Hm R H Hne. split; [exact (bounded_work_l ls s s' H Hne)|].
+  intros c m rc s ls s' Hc Hm R H Hne. split; [exact (bounded_work_l ls s s' H Hne)|].
   intros He Hf.
-  destruct (maximal_run_l c m s ls s' Hc Hm R H He) as [[_ [_ [_ [_ Hall]]]]|[id [o [_ [_ Hfull]]]]];
-    [exact Hall|congruence].
+  destruct (maximal_run_l c m rc s ls s' Hc Hm R H He)
+    as [[_ [_ [_ [_ Hall]]]]|[_ [id [o [_ [_ Hfull]]]]]]; [exact Hall|congruence].
 Qed.
 
-(** ** F-REQ-DEADLOCK: the witness *)
-
-Definition no_deadlock_s (c m : N) : Prop :=
-  forall s, reach c m s -> enabled s <> [] \/ quiescent_s s.
+(** ** F-REQ-DEADLOCK (unbuffered reply channels): the witnesses *)
 
 Lemma deadlock_small_l : exists s,
-  rrun (deadlock_schedule 2) (rinit 2 24) = Some s /\
+  rrun (deadlock_schedule 2) (rinit 2 24 0) = Some s /\
   loop s = Delivering 1%N Ok /\ aget (callers s) 1%N = Some Enqueued_not_signalled /\
   chan s = [Token; Token] /\ chan_full s = true /\ enabled s = [] /\
   length (callers s) = 4.
 Proof. eexists. split; [vm_compute; reflexivity|]. vm_compute. repeat split. Qed.
 
-Lemma deadlock_real_l : exists s,
-  rrun (deadlock_schedule 100) rinit_real = Some s /\
+Lemma deadlock_unbuffered_l : exists s,
+  rrun (deadlock_schedule 100) (rinit req_chan_capacity max_txn_thread_num 0) = Some s /\
   loop s = Delivering 1%N Ok /\ aget (callers s) 1%N = Some Enqueued_not_signalled /\
   count is_token (chan s) = 100 /\ chan_full s = true /\ enabled s = [] /\
   length (callers s) = 102.
 Proof. eexists. split; [vm_compute; reflexivity|]. vm_compute. repeat split. Qed.
 
-Lemma no_deadlock_refuted_l : ~ no_deadlock_s chan_capacity max_txn_thread_num.
+Lemma no_deadlock_unbuffered_refuted_l :
+  ~ no_deadlock_s req_chan_capacity max_txn_thread_num 0.
 Proof.
-  intros H. destruct deadlock_real_l as [s [Hr [Hl [_ [_ [_ [He _]]]]]]].
+  intros H. destruct deadlock_unbuffered_l as [s [Hr [Hl [_ [_ [_ [He _]]]]]]].
   destruct (H s (ex_intro _ _ Hr)) as [Hne|[_ [_ [_ [Hidle _]]]]]; [congruence|].
   rewrite Hl in Hidle. discriminate.
 Qed.
 
+(** The same schedule on the code as it is now: the loop is not blocked, the
+    reply goes into caller 1's channel and everybody is answered. *)
+Lemma fixed_schedule_proceeds_l : exists s,
+  rrun (deadlock_schedule 100) rinit_real = Some s /\
+  loop s = Delivering 1%N Ok /\ aget (callers s) 1%N = Some Enqueued_not_signalled /\
+  chan_full s = true /\ enabled s = [Deliver 1%N] /\
+  exists s', rstep s (Deliver 1%N) = Some s' /\
+    aget (callers s') 1%N = Some (Replied_not_signalled 1%N Ok) /\ loop s' = Dispatching.
+Proof.
+  eexists. split; [vm_compute; reflexivity|].
+  split; [vm_compute; reflexivity|]. split; [vm_compute; reflexivity|].
+  split; [vm_compute; reflexivity|]. split; [vm_compute; reflexivity|].
+  eexists. split; [vm_compute; reflexivity|]. vm_compute. split; reflexivity.
+Qed.
+
 (** The side condition [2 <= m] of [backlog_idle_l] is needed. *)
 Lemma backlog_idle_needs_two_l : exists s,
-  reach 100 1 s /\ inflight s = 0%N /\ length (queue s) = 2 /\
-  count is_token (chan s) + count is_ens (callers s) + busy (loop s) = 1.
+  reach 100 1 1 s /\ inflight s = 0%N /\ length (queue s) = 2 /\
+  count is_token (chan s) + count is_owing (callers s) + busy (loop s) = 1.
 Proof.
   eexists. split.
   - exists [Enqueue 1; Enqueue 2; Enqueue 3; SendToken 1; SendToken 2; SendToken 3;
